@@ -58,8 +58,14 @@ def sanitizer(unit):
     micro = "µ"
     # mugr = "\u00b5"
     mugr = "μ"
-    return unit.replace(" ", "").replace("mu", "u").\
-        replace(micro, "u").replace(mugr, "u")
+    while True:
+        clean = unit.replace(" ", "").replace(micro, "u").\
+            replace(mugr, "u").replace("mu", "u")
+        if clean == unit:
+            return clean
+        # a replacement can create a new "mu" (e.g. "mmu"): repeat so that
+        # sanitizing an already sanitized unit changes nothing
+        unit = clean
 
 
 def is_si(unit):
